@@ -253,6 +253,9 @@ STYLES = {
     "crlf": lambda i, p: (f"{i} 4 1.5 -0.5 100.0 0.25 {p}\r\n", (4, 1.5, -0.5, 100.0, 0.25)),
     "extra": lambda i, p: (f"{i} 3 1.5 -0.5 100.0 0.25 {p} 0.5 7e0\n", (3, 1.5, -0.5, 100.0, 0.25)),
     "zero_pad": lambda i, p: (f"0{i} 03 001.50 -00.5 100 .25 {p}\n", (3, 1.5, -0.5, 100.0, 0.25)),
+    # 16/17 significant digits: the value is the correctly rounded double of the spelling (what float() returns)
+    "long_digits": lambda i, p: (f"{i} 3 0.30000000000000004 2.4330600552301110 9299578478580.085 0.1000000000000000055511151231257827 {p}\n",
+                                 (3, float("0.30000000000000004"), float("2.4330600552301110"), float("9299578478580.085"), float("0.1000000000000000055511151231257827"))),
 }
 BAD = {"six_fields": "9 3 1.5 -0.5 100.0 0.25\n", "letter": "9 3 1.5 abc 100.0 0.25 1\n", "garbage": "hello world\n", "float_type": "9 3.0 1.5 -0.5 100.0 0.25 1\n",
        "comma": "9,3,1.5,-0.5,100.0,0.25,1\n", "negative_id": "-9 3 1.5 -0.5 100.0 0.25 1\n", "nan": "9 3 nan 0 0 1 1\n"}
@@ -336,7 +339,7 @@ def h_lines(c, k, source):
         with warnings.catch_warnings():
             warnings.simplefilter("ignore")
             t = Tree.from_swc(mk())
-        c.prove("Tree.from_swc.same_rows", t.number_of_nodes() == len(rows) and [int(v) for v in t.pid()] == [int(v) for v in df["pid"]] and [float(v) for v in t.r()] == [float(v) for v in df["r"]])
+        c.prove("Tree.from_swc.same_rows", t.number_of_nodes() == len(rows) and [int(v) for v in t.pid()] == [int(v) for v in df["pid"]] and [float(v) for v in t.r()] == [float(np.float32(v)) for v in df["r"]])  # (a Tree stores float32 columns)
     c.output("rows", len(rows))
 
 
